@@ -20,6 +20,7 @@
 #define NTH 1
 #endif
 extern void p_uthread_init(void);
+extern void p_uthread_shutdown(void);
 
 static PUThread *h[2];
 static PUThreadKey *K;
@@ -108,6 +109,14 @@ void harness(void) {
 #endif
   VASSERT(te_keys_created - te_keys_deleted == te_keys_live, "every losing key was deleted");
   VASSERT(vm_live == base_live + te_keys_live + 1, "every losing key block was freed; handles released; main's handle remains");
+#ifdef C20_MODE
+  /* C20: give everything back and compare the ledgers with the state before p_uthread_init */
+  p_uthread_local_free(K);
+  p_uthread_shutdown();
+  VASSERT(vm_live == 0, "no library allocation left after the raced first use, local_free and shutdown (the CAS loser's block included)");
+  VASSERT(te_threads_unreaped == 0 && te_attr_live == 0, "no thread / attribute object left");
+  VASSERT(te_keys_created - te_keys_deleted <= 2, "at most one platform key per PUThreadKey stays (documented), duplicates deleted");
+#endif
   VWITNESS("end");
   if (te_keys_deleted > 0) VWITNESS("a first-use race was lost and resolved");
 #if defined(TWO) && TE_DEPTH >= 2
